@@ -245,7 +245,8 @@ def bounded(pb, interp, rng, tier):
                               ("div-float16", lambda: Phase(10, .25) / np.float16(2), Fraction(41, 8))):
         check("Phase.__array_ufunc__", f"narrow-factor.{what}", what, thunk, want, tol=2 * EPS)
     # ---- imaginary phases: i*i = -1
-    for c, f in [(3.0, 0.25), (-7.0, 0.5), (2.0 ** 40, -0.125)]:
+    # (a count or a fraction that is exactly zero is still imaginary: 0j is on both axes)
+    for c, f in [(3.0, 0.25), (-7.0, 0.5), (2.0 ** 40, -0.125), (0.0, 0.25), (5.0, 0.0), (2.0 ** 40 + 5, 0.0), (0.0, -0.5)]:
         want = fr(c) + fr(f)
         check("Phase.from_angles", "imag.construct", f"Phase({c}j,{f}j)", lambda c=c, f=f: Phase(c * 1j, f * 1j), want, imaginary=True)
         try:
@@ -254,6 +255,12 @@ def bounded(pb, interp, rng, tier):
             check("Phase.from_angles", "imag.times-real", f"Phase({c}j,{f}j)*2", lambda pi_=pi_: pi_ * 2.0, 2 * want, tol=2 * EPS, imaginary=True)
             check("Phase.from_angles", "real.times-i", f"Phase({c},{f})*1j", lambda c=c, f=f: Phase(c, f) * 1j, want, imaginary=True)
             check("Phase.from_angles", "imag.div-i", f"Phase({c}j,{f}j)/1j", lambda pi_=pi_: pi_ / 1j, want, imaginary=False)
+            check("Phase.from_angles", "imag.div-real", f"Phase({c}j,{f}j)/4", lambda pi_=pi_: pi_ / 4.0, want / 4, tol=2 * EPS, imaginary=True)
+            check("Phase.from_angles", "imag.negate", f"-Phase({c}j,{f}j)", lambda pi_=pi_: -pi_, -want, imaginary=True)
+            check("Phase.from_angles", "imag.add", f"Phase({c}j,{f}j)+Phase(1j,0.125j)", lambda pi_=pi_: pi_ + Phase(1j, 0.125j), want + Fraction(9, 8), imaginary=True)
+            check("Phase.from_angles", "imag.sub", f"Phase({c}j,{f}j)-Phase(1j,0.125j)", lambda pi_=pi_: pi_ - Phase(1j, 0.125j), want - Fraction(9, 8), imaginary=True)
+            if f == 0.0:
+                check("Phase.from_angles", "imag.construct-one-number", f"Phase({c}j)", lambda c=c: Phase(c * 1j), fr(c), imaginary=True)
         except Exception as e:
             fail("Phase.from_angles", "imag.raises", f"Phase({c}j,{f}j)", f"{type(e).__name__}: {str(e)[:100]}")
     # ---- sin / cos / exp(i phase) depend only on the fractional part
